@@ -119,25 +119,3 @@ def apparent_size_assertion(rec, meta):
     """F38: the deliberate assertion in update_entry_for_path that the apparent and the real size agree."""
     return rec.get('exc') == 'AssertionError' and rec.get('cmd') in ('update', 'create') \
         and 'Apparent size' in (meta or {}).get('tb', '') and 'real size' in (meta or {}).get('tb', '')
-
-
-def reverted_submanifest_entries(rec, meta):
-    """F53: a registered sub-Manifest whose DATA lines were changed by hand (newer mtime): the incremental
-    update re-hashes the Manifest FILE but keeps trusting the entries inside it.  Matches only if the
-    round edited sub/Manifest that way and every failing file lies below sub/ and was not itself
-    operated on in this round."""
-    ops = (meta or {}).get('ops') or {}
-    if (ops.get('sub/Manifest') or [None])[0] != 'revert':
-        return False
-    def pre(f):      # the property's precondition, as in TraceIncremental!Pre
-        if f['modified']:
-            return f['dmt'] > 0 or f['sizediff'] or f['added'] or f['deleted']
-        return (not f['stale_before']) or f['sizediff'] or f['deleted']
-    bad = [f for f in rec.get('files', []) if pre(f) and not (f['same'] and f['true'])]
-    if not bad:
-        return False
-    for f in bad:
-        n = f['name']
-        if not n.startswith('sub/') or n == 'sub/Manifest' or n in ops or f['modified']:
-            return False
-    return True
